@@ -179,7 +179,10 @@ def map_or (o : Option α) (d : β) (g : α → β) : β :=
   | none => d
 /-- `a.as_ptr() as usize - b.as_ptr() as usize` where `a` is a tail slice of the string `b` (every `&str` the
 parsers hand around is a tail of the original input): the byte offset of `a` in `b` -/
-def ptr_diff (a b : List Char) : Nat := Semver.utf8Len b - Semver.utf8Len a
+class RPtrDiff (α : Type) where
+  ptr_diff : α → α → Nat
+instance : RPtrDiff (List Char) := ⟨fun a b => Semver.utf8Len b - Semver.utf8Len a⟩
+def ptr_diff {α : Type} [RPtrDiff α] (a b : α) : Nat := RPtrDiff.ptr_diff a b
 /-- `miette::SourceSpan` as built by `(offset, len).into()` -/
 structure SourceSpan where
   offset : Nat
